@@ -37,8 +37,11 @@ class Sequences(Stage):
         g = rm.Gen(d, rm.vocab(specs), 1)
         which = d.choice(['filter', 'breakpoint', 'both', 'both'])
         initial = None
-        if d.chance(0.3):
+        if d.chance(0.35):
             initial = dict(alts=[atom_text(d, g) for _ in range(d.int(1, 2))], excl=[atom_text(d, g) for _ in range(d.int(0, 1))])
+            if d.chance(0.3):
+                # command-line matchers that collapse to a constant
+                initial = d.choice([dict(raw='!'), dict(raw='*'), dict(alts=[atom_text(d, g)], excl=['*']), dict(alts=['*.*'], excl=[]), dict(alts=['*'], excl=[])])
         cmds = []
         for _ in range(d.int(1, 8)):
             k = d.weighted([(1, 'star'), (1, 'bang'), (2, 'bad'), (7, 'alts'), (6, 'excl'), (1, 'star+'), (5, 'both')])
@@ -89,7 +92,17 @@ class Sequences(Stage):
         which0 = case['which']
         init = self.text_of(case['initial']) if case['initial'] else None
         first = 'filter' if which0 in ('filter', 'both') else 'breakpoint'
-        s = session.Session(filter_text=init if first == 'filter' else None, break_text=init if first == 'breakpoint' else None)
+        s = session.Session()
+        if init is not None:
+            # the initial matcher comes from the command line: take it from parse_args as main.py does
+            import io, contextlib
+            from frontends.tui.arguments import parse_args
+            with contextlib.redirect_stdout(io.StringIO()), contextlib.redirect_stderr(io.StringIO()):
+                a = parse_args(['main.py', '-p', '-f' if first == 'filter' else '-b', init])
+            if first == 'filter':
+                s.ctl.display_matcher = a.filter_matcher
+            else:
+                s.ctl.stop_matcher = a.stop_matcher
         s.run([['line', wire.render(m, 'new')] for m in case['specs']])
         msgs = s.messages()
         models = dict(filter=Model(matcher, 'star'), breakpoint=Model(matcher, 'bang'))
@@ -103,8 +116,13 @@ class Sequences(Stage):
         def current(w):
             return s.ctl.display_matcher if w == 'filter' else s.ctl.stop_matcher
         if case['initial']:
-            learn(case['initial']['alts'] + case['initial']['excl'])
-            models[first].apply(case['initial']['alts'], case['initial']['excl'])
+            if case['initial'].get('raw') == '!':
+                models[first].reset_never()
+            elif case['initial'].get('raw') == '*':
+                models[first].apply(['*'], [])
+            else:
+                learn(case['initial']['alts'] + case['initial']['excl'])
+                models[first].apply(case['initial']['alts'], case['initial']['excl'])
         ok_cmds = 0
         excl_step = alt_step = None
         mixed = False
